@@ -377,7 +377,7 @@ func c02History(c *vc.Ctx, idx int) {
 		}
 	}
 	if replayAttempts == 0 || postSigFailures == 0 {
-		c.Inconclusive("history without replay attempts (%d) or post-signature failures (%d)", replayAttempts, postSigFailures)
+		c.Count("histories_without_replays_or_post_signature_failures", 1) // judged over the whole run (checkconf.json: require_observed)
 	}
 	c.Sample(map[string]any{"group_members": n, "votes_banked": len(bank), "final_sequence": seq, "replay_attempts": replayAttempts, "post_signature_failures": postSigFailures, "last_ops": lastN(opsLog, 5)})
 }
